@@ -3575,8 +3575,10 @@ class array_ref : public subarray<T, D, ElementPtr, Layout>
 
 	using decay_type = typename array_ref::decay_type;
 
-	       constexpr auto decay()         const&       -> decay_type const& {return static_cast<decay_type const&>(*this);}
-	friend constexpr auto decay(array_ref const& self) -> decay_type const& {return self.decay();}
+	// an array_ref is in general not (the base sub-object of) a decay_type: it may be a plain reference to foreign memory, belong to an
+	// array with another allocator, or use another pointer type (then the cast materialised a temporary and returned a dangling reference)
+	       constexpr auto decay()         const&       -> decay_type {return const_subarray<T, D, ElementPtr, Layout>::decay();}
+	friend constexpr auto decay(array_ref const& self) -> decay_type {return self.decay();}
 
  private:
 	template<class TTN, std::size_t DD = 0>
